@@ -570,8 +570,8 @@ class _IfExpSnapshot(ast.NodeTransformer):
 
 
 def _ifx(c, a, b):
-    if isinstance(c, (bool, int)):
-        return a() if c else b()            # compile-time condition: plain Python semantics (the operand itself)
+    # (the generators only produce run-time conditions for conditional expressions; `not x` / `x and y` on model values
+    #  yield Python bools, so the type of `c` cannot tell a compile-time condition from a run-time one)
     ra, rb = a(), b()
     if ra is rb:
         return ra                           # both operands are the same object: the compiler returns that object
